@@ -56,8 +56,16 @@ type world struct {
 	start map[string]*chainx.Node // per state: node after the prefix (never mutated: always forked)
 }
 
-func mkSig(f *chainx.Fixture, name string, round uint64) (common.Hash, []byte, bool) {
-	s1, c1 := f.Val("s1"), f.Val("c1")
+// targetOf: the accused validator of a validator state.
+func targetOf(state string) string {
+	if state == "tinyhouse" {
+		return "z1"
+	}
+	return "s1"
+}
+
+func mkSig(f *chainx.Fixture, target, name string, round uint64) (common.Hash, []byte, bool) {
+	s1, c1 := f.Val(target), f.Val("c1")
 	switch name {
 	case "A":
 		return hA, s1.SignVote(hA, round, 1), true
@@ -94,7 +102,13 @@ func (w *world) evidence(n *chainx.Node, c Case) (staking.Evidence, bool) {
 	case "oor":
 		idx = 77
 	default:
-		i, ok := chainx.SignerIdx(n, w.f.Val(c.IdxOf), round)
+		who := c.IdxOf
+		if who == "s1" {
+			who = targetOf(c.State) // "s1" in a case means: the accused
+		}
+		// a certificate vote names its signer in the CERTIFICATE look-back set; a validator that is not a member
+		// of that set cannot have cast such a vote (the case is then not evaluated)
+		i, ok := chainx.SignerIdxFor(n, w.f.Val(who), round, c.VoteType == staking.Certificate)
 		if !ok {
 			return staking.Evidence{}, false
 		}
@@ -103,7 +117,7 @@ func (w *world) evidence(n *chainx.Node, c Case) (staking.Evidence, bool) {
 	ev := staking.EvidenceDoubleSignV5{Round: round, RoundIndex: c.Index, SignerIdx: idx, VoteType: c.VoteType}
 	for _, s := range c.Signs {
 		// signatures are always made for the head round: a different declared round/index makes them mismatch
-		h, sig, _ := mkSig(w.f, s, head)
+		h, sig, _ := mkSig(w.f, targetOf(c.State), s, head)
 		ev.Signs = append(ev.Signs, &staking.SignInfo{Hash: h, Sign: sig})
 	}
 	return staking.NewEvidence(ev), true
@@ -242,7 +256,7 @@ func (w *world) run(c Case) string {
 	if c.Placement == "two" && c.RoundOff == 0 {
 		cls = "real" // the second evidence of this placement is a genuine pair over different hashes
 	}
-	target := "s1"
+	target := targetOf(c.State)
 	accepted := after.expel[target] != before.expel[target] || after.penalty.Cmp(before.penalty) != 0 || after.tokens[target].Cmp(before.tokens[target]) != 0
 	hasSlash := len(built.Block.Header().SlashData) > 0
 	// nobody but the accused may be touched, whatever the evidence says
@@ -359,7 +373,7 @@ func forgeKind(c Case) string {
 
 func (w *world) cases(quick bool) []Case {
 	var out []Case
-	states := []string{"genesis", "delegated", "withdrawing"}
+	states := []string{"genesis", "delegated", "withdrawing", "tinyhouse"}
 	pool := append(append([]string{}, poolGenuine...), poolForged...)
 	var seqs [][]string
 	for _, a := range pool {
@@ -420,7 +434,7 @@ func setup(r *mc.Run) *world {
 	cfg.MaxRewardsPeriod = 1000
 	chainx.SetParams(cfg)
 	w := &world{r: r, f: chainx.Fix(), start: map[string]*chainx.Node{}}
-	for _, st := range []string{"genesis", "delegated", "withdrawing"} {
+	for _, st := range []string{"genesis", "delegated", "withdrawing", "tinyhouse"} {
 		h := &chainx.Hist{F: w.f, R: r, Prefix: chainx.Prefixes[st]}
 		h.Reset()
 		// one more empty block in genesis state so that round-1 exists for "B@r-1"
@@ -434,7 +448,7 @@ func setup(r *mc.Run) *world {
 
 func Run(r *mc.Run) {
 	r.Level = "exploration"
-	r.Rule = "evidences = (every 1-, 2-element and the listed 3-element ordered sequences with repetition over a pool of 3 genuine + 6 forged signatures) + single-dimension sweeps (vote type 0..6, signer index of another/out of range, round -1/+1, round index 2, placements x2/x3/two different/replay in next block) around every pair of genuine signatures, x 3 validator states (no delegations; 2 delegations + risk obligation; + pending withdraw records); each goes through builder path and import path on the real chain; non-trivial/distinct = distinct (state, class, outcome, placement, vote type) combinations observed"
+	r.Rule = "evidences = (every 1-, 2-element and the listed 3-element ordered sequences with repetition over a pool of 3 genuine + 6 forged signatures) + single-dimension sweeps (vote type 0..6, signer index of another/out of range, round -1/+1, round index 2, placements x2/x3/two different/replay in next block) around every pair of genuine signatures, x 4 validator states (no delegations; 2 delegations + risk obligation; + pending withdraw records; a house validator below one stake unit: Token > 0, Stake == 0); each goes through builder path and import path on the real chain; non-trivial/distinct = distinct (state, class, outcome, placement, vote type) combinations observed"
 	r.SetBudget(170e9)
 	if !r.Quick() {
 		r.SetBudget(30 * 60e9)
